@@ -256,6 +256,12 @@ class Executor:
                     for s2, v in self.call_method(st, cell, "update", [rhs], {}, s)]
         raise Unsupported(f"in-place {opname} on {cur!r}")
 
+    def current_contract(self):
+        """contract whose loop/sum/local annotations apply to the function being executed"""
+        if self.contract_stack and len(self.fn_stack) == 1:
+            return self.contract_stack[-1]
+        return self.contracts.get(self.fn_stack[-1].key)
+
     def declared_kind(self, name):
         if self.contract_stack and len(self.fn_stack) == 1:
             return self.contract_stack[-1].locals.get(name)
